@@ -145,7 +145,8 @@ def synth(rng: random.Random, layout: str = 'v20', *, compress: tuple = (), orig
     compiler).
     `bad` makes lumps malformed so that looking at their view raises: 'sprp_version' (static props of the unknown
     version 14: the reader raises at once), 'sprp_size' (3 stray bytes: the reader raises after it looked at visleafs),
-    'ents' (last entity not terminated), 'texinfo' (a texinfo naming a texdata that does not exist), 'dprp' (detail
+    'ents' (last entity not terminated), 'bmodel_ref' (an entity naming a brush model that does not exist: the bmodels
+    reader raises after it took the "model" key out of the brush entities of the cached ents view), 'texinfo' (a texinfo naming a texdata that does not exist), 'dprp' (detail
     prop lump cut short), 'overlays' (lump cut in the middle of a record)."""
     import srctools.bsp as B
     magic, version, l4d2, layname = LAYOUTS[layout]
@@ -371,6 +372,8 @@ def synth(rng: random.Random, layout: str = 'v20', *, compress: tuple = (), orig
         dp_data = dp_data[:-7]
     if 'ents' in bad:
         d['ENTITIES'] = d['ENTITIES'][:-3] + b'\x00'          # the closing brace of the last entity is gone
+    if 'bmodel_ref' in bad:      # a second brush entity naming brush model 9 (there are 2): the bmodels reader raises IndexError
+        d['ENTITIES'] = d['ENTITIES'][:-1] + b'{\n"classname" "func_door"\n"model" "*9"\n"targetname" "dr"\n}\n\x00'
     if 'texinfo' in bad:
         d['TEXINFO'] = d['TEXINFO'][:-4] + struct.pack('<i', 77)
     if 'overlays' in bad:
